@@ -103,7 +103,7 @@ pub(crate) mod verif_seam;
 #[cfg(all(unix, feature = "verif-hooks"))]
 #[doc(hidden)]
 pub mod __verif {
-    pub use super::tz_info::verif::{TypeView, Zone};
+    pub use super::tz_info::verif::{DayView, RuleView, TypeView, Zone, ZoneView};
     pub use super::verif_seam::{World, install};
 }
 
